@@ -676,6 +676,61 @@ def negative_max_case(run, labelimage, seed=0, idx=0):
         seen.add(k)
 
 
+def concurrent_drivers(run, seed, idx, labelimage):
+    """two labelimage objects driven by two Python threads at the same time, each through its own frame series (the threaded
+    peaksearch driver runs one worker per threshold; connectedpixels / blobproperties / bloboverlaps are declared threadsafe in
+    the f2py interface, so they run without the GIL).  Each object must write exactly what it writes when it runs alone."""
+    import threading
+    r = rng(seed, "C12", "concurrent", idx)
+    shape = [(96, 80), (128, 128), (200, 150)][idx % 3]
+    nfr = 6
+    stacks = []
+    for k in range(2):
+        vol = gen_volume(r, nfr, shape, ["mixed", "chain", "forkjoin"][(idx + k) % 3])
+        # many small drifting blobs on top: plenty of overlap pairs per frame
+        dots = np.zeros((nfr,) + shape, bool)
+        ii, jj = np.meshgrid(np.arange(3, shape[0] - 3, 5), np.arange(3, shape[1] - 3, 5), indexing="ij")
+        for f in range(nfr):
+            keep = r.random(ii.shape) < 0.8
+            dots[f, (ii + f % 2)[keep], (jj + (f // 2) % 2)[keep]] = True
+        vol = vol | dots
+        inten = draw_intensities(r, vol, 5.0, "float32")
+        stacks.append((vol, inten))
+    omegas = np.arange(nfr) * 0.5
+    desc = dict(index=idx, route="concurrent-drivers", shape=shape, nframes=nfr)
+    run.case(("concurrent", shape, idx), nontrivial=True, sample=desc if idx < 2 else None)
+
+    def drive(inten):
+        out = io.StringIO()
+        lio = labelimage.labelimage(shape, fileout=out, sptfile=io.StringIO())
+        for f in range(nfr):
+            lio.peaksearch(inten[f], 5.0, float(omegas[f]))
+            lio.mergelast()
+        lio.finalise()
+        return out.getvalue()
+    alone = [drive(st[1]) for st in stacks]
+    for k, (vol, inten) in enumerate(stacks):
+        compare_flt(run, lambda key, what, **kw: run.violation("concurrent:alone:" + key, what, dict(desc, **kw)),
+                    alone[k], vol, inten, omegas, ref_components(vol, inten, omegas)[1])
+    rounds = 12 if run.tier == "quick" else 60
+    bad = []
+
+    def worker(k):
+        for _ in range(rounds):
+            try:
+                if drive(stacks[k][1]) != alone[k]:
+                    bad.append(k)
+            except Exception as e:
+                bad.append("%s: %s" % (type(e).__name__, e))
+    th = [threading.Thread(target=worker, args=(k,)) for k in (0, 1, 0)]
+    [t.start() for t in th]
+    [t.join() for t in th]
+    run.count("concurrent_driver_series", 3 * rounds)
+    if bad:
+        run.violation("concurrent-drivers", "%d of %d frame series merged while other Python threads were merging theirs were written "
+                      "differently from the same series merged alone (%r)" % (len(bad), 3 * rounds, bad[:3]), desc)
+
+
 def check(run, replay=None):
     from ImageD11 import labelimage, columnfile, cImageD11
     mods = (labelimage, columnfile, cImageD11)
@@ -684,6 +739,8 @@ def check(run, replay=None):
             script_case(run, replay["seed"], replay["case"]["index"])
         elif replay["case"].get("route") == "kernels":
             kernel_case(run, replay["seed"], replay["case"]["index"], cImageD11)
+        elif replay["case"].get("route") == "concurrent-drivers":
+            concurrent_drivers(run, replay["seed"], replay["case"]["index"], labelimage)
         elif replay["case"].get("route") == "negmax":
             negative_max_case(run, labelimage, replay["seed"], replay["case"].get("index", 0))
         else:
@@ -698,6 +755,10 @@ def check(run, replay=None):
     for idx in range(40 if run.tier == "quick" else 2000):
         negative_max_case(run, labelimage, run.seed, idx)
     run.require_counter("negative_blobs_checked", 40)
+    if not os.environ.get("VERIF_ASAN_RERUN"):
+        for idx in range(3 if run.tier == "quick" else 12):
+            concurrent_drivers(run, run.seed, idx, labelimage)
+        run.require_counter("concurrent_driver_series", 100)
     if not os.environ.get("VERIF_ASAN_RERUN"):
         for idx in range(8 if run.tier == "quick" else 72):
             script_case(run, run.seed, idx)
